@@ -73,9 +73,10 @@ def decode_all(dec, seq):
         if t == 'str':
             out.append(dec.decode_string(len(wire(t, v))))
         elif t == 'bits':
-            bits = []
-            for _ in range((len(v) + 7) // 8):
-                bits.extend(dec.decode_bits())
+            # the documented idiom for a group longer than 8 bits: extend the first list handed back, in place
+            bits = dec.decode_bits() if len(v) else []
+            for _ in range((len(v) + 7) // 8 - 1):
+                bits += dec.decode_bits()
             out.append(bits)
         else:
             out.append(getattr(dec, DEC[t])())
@@ -171,10 +172,15 @@ def one(acc, seq, bo, wo):
                 d = BinaryPayloadDecoder(raw, byteorder=ORD[bo], wordorder=ORD[wo])
             else:
                 d = BinaryPayloadDecoder.fromRegisters(regs, byteorder=ORD[bo], wordorder=ORD[wo])
-            got = decode_all(d, seq)
+            handed = decode_all(d, seq)
+            first = [repr(x) for x in handed]
+            got = [list(x) if isinstance(x, list) else x for x in handed]
+            for x in handed:                # the caller does what it likes with the lists it was handed
+                if isinstance(x, list):
+                    x.append('edited')
             d.reset()                       # rewinding the decoder gives the same values again
             again = decode_all(d, seq)
-            if [repr(x) for x in again] != [repr(x) for x in got]:
+            if [repr(x) for x in again] != first:
                 acc.violation('C19/%s/%s/roundtrip/%s/after-reset' % (seq[0][0], tag, transport), wit, 'second pass after reset() differs', tag)
         except Exception as e:   # noqa
             acc.violation('C19/%s/%s/roundtrip/%s/raise:%s' % (seq[0][0], tag, transport, type(e).__name__), wit, repr(e)[:120], tag)
